@@ -61,6 +61,8 @@ val fold_left : ('a1 -> 'a2 -> 'a1) -> 'a2 list -> 'a1 -> 'a1
 
 val existsb : ('a1 -> bool) -> 'a1 list -> bool
 
+val forallb : ('a1 -> bool) -> 'a1 list -> bool
+
 val filter : ('a1 -> bool) -> 'a1 list -> 'a1 list
 
 val firstn : nat -> 'a1 list -> 'a1 list
@@ -746,6 +748,28 @@ val init_wstate : z -> z -> wstate
 val render : ropts -> z -> z -> chunk list -> sym list
 
 val realise : z list -> sym list -> z list
+
+type cls =
+| XEmpty
+| XBrk of nat
+| XTxt
+| XOpaque
+
+val is_ign : chunk option -> bool
+
+val classify : chunk option -> chunk option -> chunk -> cls
+
+val classify_list : chunk option -> chunk list -> cls list
+
+val runs_ok : nat -> nat -> cls list -> bool
+
+val nlmax_ok : nat -> chunk list -> bool
+
+val vis : z -> bool
+
+val nobrk : z -> bool
+
+val in_scope : chunk -> bool
 
 val is_blank : z -> bool
 
